@@ -335,6 +335,11 @@ func (c *Compiler) Compile(node parser.Node) error {
 				return err
 			}
 		}
+		if len(node.Elements) > 65535 { // two-byte operand
+			return c.errorf(node,
+				"too many elements in array literal: %d (max 65535)",
+				len(node.Elements))
+		}
 		c.emit(node, parser.OpArray, len(node.Elements))
 	case *parser.MapLit:
 		for _, elt := range node.Elements {
@@ -349,6 +354,11 @@ func (c *Compiler) Compile(node parser.Node) error {
 			if err := c.Compile(elt.Value); err != nil {
 				return err
 			}
+		}
+		if len(node.Elements)*2 > 65535 { // two-byte operand
+			return c.errorf(node,
+				"too many elements in map literal: %d (max 32767)",
+				len(node.Elements))
 		}
 		c.emit(node, parser.OpMap, len(node.Elements)*2)
 
@@ -407,6 +417,17 @@ func (c *Compiler) Compile(node parser.Node) error {
 		freeSymbols := c.symbolTable.FreeSymbols()
 		numLocals := c.symbolTable.MaxSymbols()
 		instructions, sourceMap := c.leaveScope()
+		// local / free variable indexes are one-byte operands
+		if numLocals > 256 {
+			return c.errorf(node,
+				"too many local variables in function: %d (max 256)",
+				numLocals)
+		}
+		if len(freeSymbols) > 255 {
+			return c.errorf(node,
+				"too many captured variables in function: %d (max 255)",
+				len(freeSymbols))
+		}
 
 		for _, s := range freeSymbols {
 			switch s.Scope {
@@ -500,6 +521,10 @@ func (c *Compiler) Compile(node parser.Node) error {
 		ellipsis := 0
 		if node.Ellipsis.IsValid() {
 			ellipsis = 1
+		}
+		if len(node.Args) > 255 { // one-byte operand
+			return c.errorf(node, "too many arguments in call: %d (max 255)",
+				len(node.Args))
 		}
 		c.emit(node, parser.OpCall, len(node.Args), ellipsis)
 	case *parser.ImportExpr:
@@ -677,6 +702,10 @@ func (c *Compiler) compileAssign(
 	if op == token.Define && numSel > 0 {
 		// using selector on new variable does not make sense
 		return c.errorf(node, "operator ':=' not allowed with selector")
+	}
+	if numSel > 255 { // one-byte operand
+		return c.errorf(node,
+			"too many selectors in assignment: %d (max 255)", numSel)
 	}
 
 	_, isFunc := rhs[0].(*parser.FuncLit)
@@ -1029,6 +1058,11 @@ func (c *Compiler) compileModule(
 	moduleCompiler.optimizeFunc(node)
 	compiledFunc := moduleCompiler.Bytecode().MainFunction
 	compiledFunc.NumLocals = symbolTable.MaxSymbols()
+	if compiledFunc.NumLocals > 256 { // one-byte operand
+		return nil, c.errorf(node,
+			"too many local variables in module: %d (max 256)",
+			compiledFunc.NumLocals)
+	}
 	c.storeCompiledModule(modulePath, compiledFunc)
 	return compiledFunc, nil
 }
